@@ -288,6 +288,17 @@ func (s *Scheduler) Choices() []int {
 	return out
 }
 
+// UnfinishedIDs returns the ids of threads that never finished.
+func (s *Scheduler) UnfinishedIDs() []int {
+	var out []int
+	for _, t := range s.threads {
+		if !t.done {
+			out = append(out, t.id)
+		}
+	}
+	return out
+}
+
 // Unfinished lists threads that never finished (leaks at quiescence, or
 // victims of deadlock/horizon).
 func (s *Scheduler) Unfinished() []string {
